@@ -269,7 +269,7 @@ def walker_rules(ctx, cfg, fs, rule, table):
             for i, k, st in b.stmts():
                 if st['k'] == 'assign' and st['rv']['k'] == 'agg' and st['rv'].get('adt') == 'meta::Meta' and st['rv'].get('variant') == 'Strict':
                     sites.append(outer(b.path))
-        ok = set(sites) <= {'params::ParsePositional::<T>::meta', 'meta::Meta::normalized', 'meta::Meta::normalize::normalize_vec', '<meta::Meta as std::clone::Clone>::clone'}
+        ok = all(fs.listed(x, {'params::ParsePositional::<T>::meta', 'meta::Meta::normalized', 'meta::Meta::normalize::normalize_vec', '<meta::Meta as std::clone::Clone>::clone'}) for x in set(sites))
         ctx.ob(rule, 'Meta::Strict:producers', ok, 'Meta::Strict is built only by %s (around positional items / during usage normalisation)' % sorted(set(sites)), cfg=cfg)
         # collect_shorts feeds flags from Flag items and args from Argument items, descends into commands
         b = fs.one(r'collect_shorts$')
